@@ -1,17 +1,58 @@
 """C09 — trusted-length iterators yield exactly as many items as they announce. Engine K."""
 import kani_engine
 
-RULE = ("TODO")
+RULE = ("one Kani harness per (adaptor, observation, input length N or abstract inner iterator); three observations on "
+        "every iterator handed out as TrustedLen: COLLECT (collect_trusted_to_vec under Kani's pointer checks, len == "
+        "announced), TOTAL (size_hint().1 read before consumption == number of items yielded by plain iteration, and == "
+        "input length for shift-like adaptors), STEPS/WALK (hint re-read after every next / next_back of a symbolic "
+        "interleaving: positive while items come, drops by exactly one per item, zero exactly at exhaustion); parameters "
+        "(lag over the full i32 range for vshift/vdiff/vpct_change, -len-3..=len+3 for shift, window 1..=len+2, fill values, "
+        "bounds, masks, element values, null patterns) are kani::any(); a harness is non-trivial when all its kani::cover! "
+        "witnesses are SATISFIED")
 
 MANIFEST = {
     "engine": "K",
-    "technique": "TODO",
+    "technique": "bounded model checking (Kani/CBMC) of every TrustedLen iterator the library hands out: hint vs. items yielded "
+                 "before and during consumption, trusted collection under pointer checks; adaptors also over an abstract "
+                 "contract-satisfying inner iterator (induction over pipeline depth)",
     "design_ref": "DESIGN.md 3/C09",
-    "level_text": "TODO",
-    "level_note": "TODO",
+    "level_text": "CBMC decides, for all element values and all parameters in the stated ranges at each concrete input length "
+                  "N <= 3 (and for an abstract inner iterator of symbolic length <= 3 with nondeterministic items), that the "
+                  "iterators returned by titer() of Vec/[T;N]/[T]/VecDeque/Array1/ArrayView1/Arc/OptIter, shift, vshift, vdiff, "
+                  "vpct_change, ffill/bfill/fill(_mask), vclip, abs/vabs, vcut, vpartition, varg_partition, rolling_custom_iter, "
+                  "Vec1Create::range/linspace (Linspace) yield exactly size_hint().1 items from every point of consumption, that "
+                  "collect_trusted_to_vec writes inside its allocation and returns that length, and that shift-like adaptors "
+                  "announce the input length; counterexamples are replayed natively",
+    "level_note": "trusted: Kani's MIR->goto translation, CBMC, CaDiCaL. Bounds: N <= 3 quick / <= 4 thorough; vpartition / "
+                  "varg_partition with literal (kth, sort, rev, null pattern) grids (symbolic kth: no solver answer in 900 s), "
+                  "vcut with literal flags at 1-2 values; winsorize only in the thorough tier (its returned iterator is "
+                  "iter_cast().vclip(), which is covered with arbitrary bounds in the quick tier). Pipelines of depth >= 2 are "
+                  "covered by induction over the abstract inner iterator, two concrete pipelines in the thorough tier. Outside: "
+                  "Polars backend; Scan / Repeat (unbounded) TrustedLen impls not reachable from the public adaptors; "
+                  "Linspace::next_back (private type, only forward-collected); detection of uninitialised reads after an "
+                  "under-yield is by the TOTAL observation, not by memory instrumentation",
 }
 
 
 def check(v, tier, opts):
+    v.functions.update([
+        "TIter::titer of Vec/[T]/[T;N]/VecDeque/Array1/ArrayView1 (contiguous, reversed, strided)/Arc<Vec>/OptIter, "
+        "IntoTIter::into_titer, Vec1View::{to_opt_iter, opt_iter_cast, iter_cast}, TIter::map, &OptIter::into_iter",
+        "TrustIter / ToTrustIter::to_trust", "MapBasic::{shift, abs}",
+        "MapValidBasic::{vshift, vabs, ffill, ffill_mask, bfill, bfill_mask, fill, fill_mask, vclip, vcut}",
+        "MapValidVec::{vdiff, vpct_change, vpartition, varg_partition}", "Vec1View::rolling_custom_iter",
+        "Vec1Create::{range, linspace} / tea_core::linspace::Linspace", "CollectTrusted::collect_from_trusted for Vec, "
+        "CollectTrustedToVec::collect_trusted_to_vec, Vec1Collect::collect_trusted_vec1",
+        "MapValidFinal::winsorize (thorough tier)",
+    ])
+    v.bounds.append("input length N in 0..=3 quick (0..=4 thorough), abstract inner iterator with symbolic remaining length <= 3; "
+                    "lag: full i32 range (vshift, vdiff, vpct_change), -N-3..=N+3 (shift); window 1..=N+2; kth in 0..=N+2 as literal "
+                    "grid x sort x rev x null pattern; vcut: 1 value (2 thorough), 2 edges; range: start/end in -3..=3, step in "
+                    "{+-1,+-2} (f64: +-1/4..+-2); linspace: 0..=4 points")
+    v.assumptions.append("abs/vabs: elements != i32::MIN (abs of the type minimum is undefined in the language, DESIGN 5.6); "
+                         "vdiff/vpct_change: i32 elements in -100..=100 (no overflow of the difference); integer range: the sign "
+                         "of the step agrees with the direction of the span (the opposite is a C19 question)")
+    v.outside.append("Polars backend; lengths above the bound; Scan/Repeat TrustedLen impls (unreachable from the public adaptors); "
+                     "Linspace::next_back; symbolic kth for the partitions; winsorize in the quick tier")
     kani_engine.decide(v, "C09", tier, opts)
     return v.finish(RULE)
